@@ -28,8 +28,9 @@ D = {
 
 WIDE = '\ndef wide(p0: int, p1: str, p2: float, p3: bool, p4: int, p5: str, p6: float, p7: bool, p8: int, p9: str, p10: int) -> float:\n\treturn p2\n'
 USE_WIDE = "\nVW = wide(1, 'a', 1.5, True, 2, 'b', 2.5, False, 3, 'c', 4)\n"
-A = {k: v + WIDE for k, v in A.items()}
-B = {k: v.replace('from proj.a import fa', 'from proj.a import fa, wide') + USE_WIDE for k, v in B.items()}
+LISTY = '\ndef first_{n}(values: list[int]) -> int:\n\treturn values[0]\n'
+A = {k: v + WIDE + LISTY.format(n='a') for k, v in A.items()}
+B = {k: v.replace('from proj.a import fa', 'from proj.a import fa, wide') + USE_WIDE + LISTY.format(n='b') for k, v in B.items()}
 
 # chain3p: the same chain with the names rotated so that the *top* module's path (proj.b) is a string prefix of the
 # *base* module's path (proj.bb): bb <- a <- b
